@@ -413,3 +413,24 @@ def eval_const(fn, op, depth=0):
             return None
         return _BIN[rv[1]](a, b)
     return None
+
+
+def rpo(fn):
+    """Reverse post-order of the reachable non-cleanup blocks."""
+    succ = fn.succ()
+    order = []
+    seen = {0}
+    stack = [(0, iter(succ[0]))]
+    while stack:
+        node, it = stack[-1]
+        adv = False
+        for s in it:
+            if s not in seen:
+                seen.add(s)
+                stack.append((s, iter(succ[s])))
+                adv = True
+                break
+        if not adv:
+            order.append(node)
+            stack.pop()
+    return list(reversed(order))
